@@ -186,6 +186,15 @@ Theorem C20_schema_quote : forall nonstr (h : hdr) (v : string),
 Proof. exact schema_quote. Qed.
 Print Assumptions C20_schema_quote.
 
+(* the tag is set from the schema type alone; full statement "the tag afterwards agrees with what the
+   text resolves to" is FALSE: `replicas: true` becomes `!!int true` (finding schema/mismatched-scalar-retagged) *)
+Theorem C20_schema_retag_refuted :
+  exists (nonstr : string -> bool) h v,
+    nonstr v = true /\ v = "true" /\ h_tag h = "!!bool" /\
+    h_tag (fmt_nonstring nonstr ["integer"] "" h v) = "!!int".
+Proof. exact schema_retag_refuted. Qed.
+Print Assumptions C20_schema_retag_refuted.
+
 (* ---- documents the filter leaves alone ---- *)
 Theorem C20_optout : forall nonstr srt s n v,
   lookup_fields ["metadata"; "annotations"; fmt_annotation] n = Ok (Some v) ->
